@@ -7,12 +7,18 @@ EXTRACT_DEPS = ['Codec/FilterCase.vo', 'Agent/ReasmRs.vo', 'Agent/Model.vo', 'Ag
 CONSTS = {}
 for _p in ('C01', 'C02', 'C03', 'C04', 'C09', 'C10', 'C13', 'C14', 'C16', 'C18', 'C19'):
     CONSTS.setdefault(_p, []).append('ConstantsCodec')
-for _p in ('C06', 'C08', 'C12', 'C15'):
-    CONSTS.setdefault(_p, []).append('ConstantsAgent')
+for _p in ('C06', 'C12', 'C15'):
+    CONSTS.setdefault(_p, []).append('ConstantsAgent')           # client defaults
+CONSTS.setdefault('C08', []).append('ConstantsAgentNonce')       # nonce-cookie header and feature bits
+CONSTS.setdefault('C15', []).append('ConstantsAgentRtt')         # ALPHA, BETA, K, staleness limit
 # functions translated from /repo's current Rust text (tools/rs2v.py -> coq/Generated/Code.v) and the lemmas proving that
 # each equals the hand-written model for all arguments
-for _p in ('C01', 'C02', 'C09', 'C14', 'C18', 'C19'):
-    CONSTS.setdefault(_p, []).append('CodeAgreeCodec')
+for _p in ('C01', 'C02', 'C14'):
+    CONSTS.setdefault(_p, []).append('CodeAgreePad')             # padding()
+for _p in ('C09', 'C18'):
+    CONSTS.setdefault(_p, []).append('CodeAgreeFilter')          # ignore_attribute()
+for _p in ('C02', 'C19'):
+    CONSTS.setdefault(_p, []).append('CodeAgreeCodec')           # message-type conversions
 for _p in ('C06', 'C11'):
     CONSTS.setdefault(_p, []).append('CodeAgreeRto')
 CONSTS.setdefault('C15', []).append('CodeAgreeRtt')
